@@ -27,7 +27,7 @@ pub trait FdExt: AsFd {
         ensures
             r matches Ok(fd) ==> reopened_from(fd.id(), self.fd_id()),
             r matches Ok(fd) ==> cloexec(fd.id()),                                // utils.FdExt.reopen, proved in U15
-            r matches Ok(fd) ==> (lineage(self.fd_id()) ==> lineage(fd.id())),
+            r matches Ok(fd) ==> (lineage(self.fd_id()) ==> lineage(fd.id())) && (witnessed(self.fd_id()) ==> witnessed(fd.id())),
             r matches Ok(fd) ==> requested_flags_of(fd.id()) == flags.bits & !libc::O_NOFOLLOW,
     { unimplemented!() }
 }
